@@ -162,7 +162,8 @@ func checkC11(e *core.Env) {
 					}
 				}
 			case 1:
-				body, bodyClass = append(body, 0x7f, 0xff, 0xff, 0xff, 1, 2, 3), "hostile-prefix"
+				pfx := pick(r, []byte{0x7f, 0xff, 0xff, 0xff}, []byte{0x80, 0, 0, 0}, []byte{0xff, 0xff, 0xff, 0xff}, []byte{0xff, 0xff, 0xff, 0xfb}, []byte{0x06, 0x40, 0, 1}, []byte{0x80, 0, 0, 1})
+				body, bodyClass = append(append(body, pfx...), 1, 2, 3), "hostile-prefix"
 			case 2:
 				body, bodyClass = randBytes(r, r.Intn(40)), "garbage"
 			case 3:
@@ -219,6 +220,12 @@ func checkC11(e *core.Env) {
 		if pan != "" {
 			e.Violate(sig+"panic/"+hdrClass+"/"+bodyClass, "request made the server panic: "+trunc(pan, 600), w)
 			return
+		}
+		for _, ev := range run.Events() {
+			if ev.Pan != "" {
+				e.Violate(sig+"panic-in-handler-op/"+bodyClass, "a stream operation of the handler panicked inside the library: "+trunc(ev.Pan, 500), w)
+				break
+			}
 		}
 		if count > 1 {
 			e.Violate(sig+"handler-twice", fmt.Sprintf("handler invoked %d times", count), w)
